@@ -1,13 +1,15 @@
 (* Front/FragCheck.v — executable comparison for C06 *)
 From Coq Require Import List NArith Bool Arith.
-From BM Require Import Isa.Sim Net.TickCheck Front.Frag Front.FragWf Front.BasmCheck.
+From BM Require Import Isa.Sim Net.TickCheck Front.Frag Front.FragWf Front.FragNet Front.BasmCheck.
 Import ListNotations.
 
 (* 1: the composed program of some processor differs from the assembler's, 2: the graph's direct
    evaluation differs from the settled outputs of the simulated machine, 3: the graph or one of its
    collapse lists is outside the conditions under which Proofs/FragPass.v proves the composed section
    correct (so the theorem would say nothing about this case), 4: one pass of the assembled section on
-   the settled inputs does not leave the graph's values at the processor outputs *)
+   the settled inputs does not leave the graph's values at the processor outputs, 5: the machine of
+   Front/FragNet.v, built from the assembled programs and run round-robin for as many rounds as there
+   are instances from zero links and zero registers, does not end with the observed outputs *)
 Definition pass_agrees (rsize : N) (g : graph) (xs : list N) (c : list nat * list instr) : bool :=
   let cl := fst c in
   let nouts := length (out_ports g cl) in
@@ -17,5 +19,9 @@ Definition pass_agrees (rsize : N) (g : graph) (xs : list N) (c : list nat * lis
 Definition check_case (rsize : N) (g : graph) (cps : list (list nat * list instr)) (xs : list N) (observed : list N) : list nat :=
   (if forallb (fun c => prog_eq (compose g (fst c)) (snd c)) cps then [] else [1]) ++
   (if TickCheck.leqb N.eqb (eval rsize 16 g xs) observed then [] else [2]) ++
-  (if graph_ok g && forallb (fun c => pass_ok g (fst c) 16 (length (out_ports g (fst c)))) cps then [] else [3]) ++
+  (if graph_ok g && ext_ok g && partition_ok g (map fst cps) 16 then [] else [3]) ++
+  (if TickCheck.leqb N.eqb
+        (outputs_of g (mw (run_sched rsize 16 g (map fst cps) (map snd cps) xs (rounds (length cps) (length (insts g)))
+                                     (mkM (wires0 g) (repeat (repeat 0%N 16) (length cps))))))
+        observed then [] else [5]) ++
   (if forallb (pass_agrees rsize g xs) cps then [] else [4]).
